@@ -30,8 +30,8 @@ from . import common
 ID = "C08"
 LEVEL = "fault_enumeration"
 TIERS = {
-    "quick": {"runs": 900, "wall": 70, "run_timeout": 150, "shrink_s": 60, "p_gamma": 0.4, "big": 0.3},
-    "thorough": {"runs": 40000, "wall": 1100, "run_timeout": 300, "shrink_s": 180, "p_gamma": 0.5, "big": 0.5},
+    "quick": {"runs": 900, "wall": 70, "run_timeout": 240, "shrink_s": 60, "p_gamma": 0.4, "big": 0.3},
+    "thorough": {"runs": 40000, "wall": 1100, "run_timeout": 400, "shrink_s": 180, "p_gamma": 0.5, "big": 0.5},
 }
 RULE = ("case = seeded continuum (2..5 annotators; small to medium: up to 3x12 / 2x30 units) x dissimilarity; part A: best and soft "
         "alignment under {CBC, GLPK/ImportError, GLPK/SolverError}; part B (a fraction of cases): gamma computation (exact/fast/soft, "
